@@ -56,6 +56,10 @@ CLAIMED = {
    text="Lean theorems over a model of pac_type.go/signature_data.go/client_info.go: acceptance holds exactly when the table parses, every buffer lies inside the data, the four mandatory buffers are present and decodable, the declared type is supported and the server signature equals the RFC checksum (usage 17) of the zeroed copy; the signature field never influences the zeroed copy; two inputs differing only in signature bytes are never both accepted; unsupported declared types are rejected; acceptance of the same signature for different data exhibits a checksum collision; first buffer of each kind wins; the group-SID rule is complete and sound. Tied to Go by re-signing the sample PACs with the Lean issuer model under all five types and flipping every bit, removing/duplicating/permuting buffers, corrupting table fields, overlapping signature buffers.",
    note=CRYPTO_NOTE + "NDR decoding of KERB_VALIDATION_INFO (jcmturner/rpc) is a parameter of the model (its verdict per buffer is taken from the real decoder, run in a memory-limited child because it can exhaust memory on corrupted counts: that is a C04 matter).",
    technique="Lean 4 proof (decision logic, zeroing lemmas, list induction) + exhaustive bit-flip differential run with an independent signer", design="5/C19"),
+ "C09": dict(
+   text="Lean theorems over the decision logic of ASRep.Verify and of TGSRep.DecryptEncPart + TGSRep.Verify + the checks of Client.TGSExchange: an AS reply is accepted exactly when it decrypts under the client's own key and nonce, cname, crealm, sname, srealm, addresses and KDC time match the outstanding request (RFC 4120 3.1.5), a TGS reply exactly when it decrypts under the TGT session key and nonce, cname, client realm, ticket realm, srealm, addresses and KDC time match (3.3.4), for every request, reply, clock and skew; a reply carrying another nonce (replayed from an earlier request), one that does not decrypt, and each single altered field are rejected; the time bound is decided exactly at the limit; a KRB-ERROR reply reaches the caller as that error and never as success; the unrepaired TGS exchange (reply crealm ignored) is refuted by witness. Tied to Go by replies minted with the real library's types and crypto for six etypes, password clients with every hint variant and keytab clients, with a 53-entry defect catalogue singly and in pairs: (1) the Verify functions called directly under a fake clock, (2) Client.Login / Client.GetServiceTicket (with and without a pre-authentication round) against a loopback KDC; verdict, session key and end time compared with an independent byte-level Lean verifier (RFC codec, string-to-key with hint selection, crypto, the proven decision logic).",
+   note=CRYPTO_NOTE + "The RFC 6806 FAST-negotiation branch of ASRep.Verify is not modelled (requests are made with DisablePAFXFAST); KRB-ERROR codes with protocol semantics of their own (PREAUTH_REQUIRED/FAILED retry, WRONG_REALM referral) are exercised in conformant form only; the whole-exchange runs use the real clock and therefore only offsets away from the limits.",
+   technique="Lean 4 proof (iff over the decision logic with decidable Prop checks) + differential run of minted KDC replies against an independent Lean verifier (direct calls under synctest fake time, whole exchanges against a loopback KDC)", design="5/C09"),
  "C12": dict(
    text="Lean theorems over a model of sendToKDC/dialSend*: if some endpoint on a permitted transport answers correctly and every other endpoint only refuses, closes early or is silent, the caller gets the answer of an answering endpoint, for every order of both (independently shuffled) KDC walks and every relation of request size to udp_preference_limit; no delivering endpoint gives a communication error; a KRB-ERROR from the first delivering endpoint is returned as that error, response-too-big over UDP falls back to TCP; every endpoint is contacted at most once per transport; the unrepaired shadowed-variable branch is refuted by witness. Tied to Go by scripted loopback endpoints (TCP and UDP on one port) and the real client AS exchange: all 36 assignments x 3 limits for one KDC, samples for 2-3 KDCs, comparing result class, error code, answering endpoint and contacted endpoints.",
    note="net, the 5 s deadlines and the OS are outside the model (silent endpoints cost real time, so they are sampled in the quick tier); endpoints that refuse leave no trace, so their position in the walk is not observed (it does not influence the result).",
